@@ -28,7 +28,7 @@ NPROC = os.cpu_count() or 4
 TRUSTED_BASE = [
     "Coq 8.16.1 kernel (coqc); vm_compute used, native_compute not used; coqchk re-check in the thorough tier",
     "no axioms: every Print Assumptions must report 'Closed under the global context'",
-    "extraction: ExtrOcamlBasic + ExtrOcamlNativeString (their Extract Inductive/Constant directives only; none of our own), OCaml 4.13.1; cross-checked against vm_compute on a slice of the cases",
+    "extraction: ExtrOcamlBasic + ExtrOcamlNativeString (their Extract Inductive/Constant directives only; none of our own), OCaml 4.13.1; on every run a sample of the cases is re-evaluated by vm_compute inside Coq on the extracted definitions and must equal the extracted binary's answers (vlib/coqeval.py, evidence field extraction_crosscheck)",
     "correspondence glue: harness/ (h264v line protocol, printers, counting allocator, table dump), ocaml/modelrun.ml (command parser), check.py + vlib/ (generators, canonicalisation, diff)",
     "modelled not verified: bitstream-io 2.6.0 bit queue (documentation-level model; inputs < 2^29 bytes), memchr, std::io default methods, Vec growth, f64 division, rfc6381-codec Display, hex-slice, log",
     "specifications coq/Spec/*: hand transcriptions of H.264 clauses 7.3.2.1-7.3.3, 7.4.1, 9.1, Annex B, D.1, E.1 and ISO/IEC 14496-15 5.2.4.1",
